@@ -77,7 +77,19 @@ def gen(tier, rng, scale):
                 # style 0: uniformly random; 1: sticky (keep running the same creator for a while); 2: prefer the newest arrival; 3: kill-heavy
                 decisions.append([0, rng.below(64) if style in (0, 3) else (0 if rng.chance(3, 4) else rng.below(64)) if style == 1 else 63 - (0 if rng.chance(2, 3) else rng.below(8))])
         cases.append({"creators": creators, "items": decisions})
+    cases += _gen_callers(tier, rng.fork("callers"), scale)
     return cases
+
+
+def _gen_callers(tier, rng, scale):
+    """a caller of create_file_cleanly end to end: the .symindex wholesym derives from a local .sym file, with the first attempt's writes failing
+    (RLIMIT_FSIZE) at the first write, in the middle, in the last bytes, or not at all"""
+    out = []
+    for _ in range((6 if tier == "quick" else 60) * scale):
+        n = rng.choice([300, 2000, 3000, 20000, 120000])
+        lim = rng.choice([0, 0, 1, 512, 4096, 65536, 10 ** 9]) if n < 120000 else rng.choice([0, 65536, 2 * 1024 * 1024 + 7, 10 ** 9])
+        out.append({"kind": "caller", "items": [[n, lim]], "creators": []})
+    return out
 
 
 def with_items(case, items):
@@ -336,14 +348,61 @@ def _coq_trace(case, trace):
     return "(%s, %s)" % (plans, K.coq_list(evs))
 
 
+def _evaluate_callers(cases):
+    ok, log, bindir = K.cargo_build("h_ws")
+    if not ok:
+        raise K.TieBroken("harness h_ws does not build against the current tree:\n" + log[-1500:])
+    base = os.path.join(K.SCRATCH, "c16w_%d" % os.getpid())
+    shutil.rmtree(base, ignore_errors=True)
+    os.makedirs(base)
+    try:
+        lines = ["%s %d %d" % (os.path.join(base, "w%d" % i), c["items"][0][0], c["items"][0][1]) for i, c in enumerate(cases)]
+        rc, outl, err = K.run_lines(os.path.join(bindir, "h_ws"), [], lines, timeout=1800)
+    finally:
+        shutil.rmtree(base, ignore_errors=True)
+    if rc != 0 or len(outl) != len(cases):
+        raise K.TieBroken("h_ws failed (rc=%s, %d/%d): %s" % (rc, len(outl), len(cases), err[-300:]))
+    st = _state.setdefault("stats", {}).setdefault("callers", {"runs": 0, "first_attempt_failed_write": 0, "first": {}})
+    terms = []
+    for c, l in zip(cases, outl):
+        c["_trace"] = l
+        kv = dict(x.split("=", 1) for x in l.split() if "=" in x)
+        if "first" not in kv:
+            terms.append("(3, 3, false)")
+            continue
+        code = lambda v: 0 if v == "absent" else 1 if v == "complete" else 2
+        st["runs"] += 1
+        st["first"][kv["first"].split(":")[0]] = st["first"].get(kv["first"].split(":")[0], 0) + 1
+        st["first_attempt_failed_write"] += 1 if kv["first"] != "complete" else 0
+        terms.append("(%d, %d, %s)" % (code(kv["first"]), code(kv["retry"]), "true" if kv["ok2"] == "1" else "false"))
+    shards = [K.case_defs("(N * N * bool)", ch, fn="verdict_caller") for ch in K.chunked(terms, K.NCPU)]
+    try:
+        res = K.coq_eval(PROP, "From Coq Require Import NArith.\nFrom SV Require Import Model.FileCreation Tie.C16.\nOpen Scope N_scope.", shards)
+    except RuntimeError as ex:
+        raise K.TieBroken(str(ex))
+    return [v for r in res for v in r]
+
+
 def evaluate(cases):
     if not cases:
         return []
+    callers = [(i, c) for i, c in enumerate(cases) if c.get("kind") == "caller"]
+    if callers:
+        rest = [(i, c) for i, c in enumerate(cases) if c.get("kind") != "caller"]
+        out = [None] * len(cases)
+        for (i, _), v in zip(callers, _evaluate_callers([c for _, c in callers])):
+            out[i] = v
+        if rest:
+            for (i, _), v in zip(rest, evaluate([c for _, c in rest])):
+                out[i] = v
+        return out
     binp = _bin()
     base = os.path.join(K.SCRATCH, "c16_%d" % os.getpid())
     shutil.rmtree(base, ignore_errors=True)
     os.makedirs(base)
-    stats = _state.setdefault("stats", {"schedules": 0, "steps": 0, "kills": 0, "blocked_waits": 0, "results": {}, "creators_hist": {}, "machinery_stuck": 0})
+    stats = _state.setdefault("stats", {})
+    for k0, v0 in (("schedules", 0), ("steps", 0), ("kills", 0), ("blocked_waits", 0), ("results", {}), ("creators_hist", {}), ("machinery_stuck", 0)):
+        stats.setdefault(k0, v0)
 
     def one(i):
         d = os.path.join(base, "s%d" % i)
